@@ -16,6 +16,7 @@ import (
 	"context"
 	"errors"
 	"fmt"
+	"hash/fnv"
 	"math/rand"
 	"os"
 	"sync"
@@ -248,8 +249,13 @@ func spShareGroup(c *spCase, earlier []*spCase, rng *rand.Rand) string {
 }
 
 // materialise writes the facts of one case into the store and builds its command.
-func (c *spCase) materialise(st *spStore, k int, rng *rand.Rand, earlier []*spCase) error {
+func (c *spCase) materialise(st *spStore, k int, chunk *rand.Rand, seed int64, earlier []*spCase) error {
 	f := c.facts
+	// presentation choices of a case depend on its facts and the seed only, so that a case
+	// replayed alone is presented as in the run that flagged it
+	h := fnv.New64a()
+	h.Write([]byte(kit.JSON(f)))
+	rng := rand.New(rand.NewSource(seed*1000003 + int64(h.Sum64()>>1)))
 	typ := kit.Str(f, "type")
 	codes, ok := spTypeCodes[typ]
 	if !ok {
@@ -257,7 +263,7 @@ func (c *spCase) materialise(st *spStore, k int, rng *rand.Rand, earlier []*spCa
 	}
 	code := codes[rng.Intn(len(codes))]
 	from := fmt.Sprintf("s%d", k)
-	if shared := spShareSender(c, earlier, rng); shared != "" {
+	if shared := spShareSender(c, earlier, chunk); shared != "" {
 		from = shared
 	}
 	c.from = from
@@ -310,7 +316,7 @@ func (c *spCase) materialise(st *spStore, k int, rng *rand.Rand, earlier []*spCa
 		}
 	case "group":
 		target = fmt.Sprintf("g%d", k)
-		if shared := spShareGroup(c, earlier, rng); shared != "" {
+		if shared := spShareGroup(c, earlier, chunk); shared != "" {
 			target = shared
 		}
 		c.group = target
@@ -388,11 +394,11 @@ func spOutcome(r message.SendResult, err error, sent int) map[string]any {
 
 // runChunk decides every case of the chunk (all with the same whitelist setting) through
 // both paths against one store.
-func spRunChunk(cases []*spCase, wl bool, base int, rng *rand.Rand) error {
+func spRunChunk(cases []*spCase, wl bool, base int, rng *rand.Rand, seed int64) error {
 	st := newSPStore()
 	st.wrapNF = rng.Intn(2) == 0
 	for i, c := range cases {
-		if err := c.materialise(st, base+i, rng, cases[:i]); err != nil {
+		if err := c.materialise(st, base+i, rng, seed, cases[:i]); err != nil {
 			return err
 		}
 	}
@@ -520,7 +526,7 @@ func TestVerifSendPermission(t *testing.T) {
 				if n > len(list) {
 					n = len(list)
 				}
-				if err := spRunChunk(list[:n], wl, next, rng); err != nil {
+				if err := spRunChunk(list[:n], wl, next, rng, env.Seed); err != nil {
 					rep.Infra("%v", err)
 					return false
 				}
